@@ -90,8 +90,8 @@ def gen_binop(rng, tier):
         g = gen.rand_factor(rng, rest, card, k=rng.randint(1, min(2, len(rest))))
     else:
         g = gen.rand_factor(rng, vs, card)
-    op = rng.choice(["product", "product", "sum", "divide", "mul_op", "add_op", "div_op"])
-    if op in ("divide", "div_op"):
+    op = rng.choice(["product", "product", "sum", "divide", "mul_op", "add_op", "div_op", "fn_divide", "fn_product2"])
+    if op in ("divide", "div_op", "fn_divide"):
         if not set(g["scope"]) <= set(f["scope"]):
             f, g = (g, f) if set(f["scope"]) <= set(g["scope"]) else (f, gen.rand_factor(rng, f["scope"], card, k=rng.randint(1, len(f["scope"]))))
     return {"names": names, "card": card, "labels": labels, "f": f, "g": g, "op": op,
@@ -106,7 +106,7 @@ def run_binop(case, drv):
     op = case["op"]
     sf, sg = snapshot(f), snapshot(g)
     inf_idx = ()
-    if op in ("product", "mul_op"):
+    if op in ("product", "mul_op", "fn_product2"):
         rep = drv.call("f_product", f=mf, g=mg)
     elif op in ("sum", "add_op"):
         rep = drv.call("f_add", f=mf, g=mg)
@@ -122,6 +122,12 @@ def run_binop(case, drv):
             res = f + g
         elif op == "div_op":
             res = f / g
+        elif op == "fn_divide":
+            from pgmpy.factors import factor_divide
+            res = factor_divide(f, g)
+        elif op == "fn_product2":
+            from pgmpy.factors import factor_product
+            res = factor_product(f, g)
         elif inplace:
             getattr(f, op)(g, inplace=True)
             res = f
